@@ -129,7 +129,7 @@ def open_options(block, fields, scope_text=""):
 
 
 SECTION_ORDER = [(n, None) for n in ["rolling", "chunker", "header", "proto", "levels", "versions", "cloneflags", "clonesteps",
-                                    "compresssteps", "pipeline"]]
+                                    "compresssteps", "pincheck", "pipeline"]]
 
 
 def _run_section(name, fn, sections, broken, facts, ctx, snapshot):
@@ -410,6 +410,37 @@ def gen(snapshot=None):
 
 
     _run_section('compresssteps', _sec_compresssteps, sections, broken, facts, ctx, snapshot)
+    def _sec_pincheck(w, facts, ctx):
+        cl = src("src/clone_cmd.rs")
+        # ---- --verify-header: the condition under which the clone is refused, as a boolean term over what the
+        # two comparisons in it observe (HashSum equality compares the common prefix only) -------------------
+        blk = need(r"if let Some\(ref expected_checksum\) = opts\.header_checksum \{(.*?)\n    \}\n", cl,
+                   "header checksum check").group(1)
+        blk = strip_comments(blk)
+        cond = need(r"^\s*if (.*?)\{\s*return Err\(anyhow!\(\"Header checksum mismatch\"\)\);", blk,
+                    "header checksum mismatch condition").group(1)
+        cond = re.sub(r"\s+", " ", cond).strip()
+        atoms = {
+            "expected_checksum.len() != archive.header_checksum().len()": "opts.len_differs",
+            "archive.header_checksum().len() != expected_checksum.len()": "opts.len_differs",
+            "*expected_checksum != *archive.header_checksum()": "opts.prefix_differs",
+            "*archive.header_checksum() != *expected_checksum": "opts.prefix_differs",
+            "expected_checksum != archive.header_checksum()": "opts.prefix_differs",
+        }
+        for k, v in atoms.items():
+            cond = cond.replace(k, v)
+        term = bool_expr(cond, {"len_differs": "pin_len_differs", "prefix_differs": "pin_prefix_differs"})
+        w("Record pin_obs := { pin_len_differs : bool; pin_prefix_differs : bool }.")
+        w(f"Definition pin_refuses (o : pin_obs) : bool := {term}.")
+        # nothing touches the output before this check
+        body = need(r"async fn clone_archive<R>\(opts: Options, reader: R\)(.*?)\n}\n", cl, "clone_archive body").group(1)
+        before = body[:body.find("opts.header_checksum")]
+        if re.search(r"OpenOptions|File::create|remove_file|rename\(", before):
+            raise TranslateError("a file operation precedes the header checksum check")
+        w("Definition pin_checked_before_output : bool := true.")
+
+
+    _run_section('pincheck', _sec_pincheck, sections, broken, facts, ctx, snapshot)
     def _sec_pipeline(w, facts, ctx):
         cl = src("src/clone_cmd.rs")
         cm = src("src/compress_cmd.rs")
